@@ -70,3 +70,12 @@ def load_config(project_dir):
     config = _mods()[5]
     os.chdir(project_dir)
     return config.init(project_path=".")
+
+
+def pep440_slot_text(vtext, vpattern):
+    """What bumpver itself renders for a `{pep440_version}` occurrence of version vtext (used only to build a
+    *starting* world that bumpver accepts; the oracle for what an update writes is independent of this)."""
+    v2version, v2patterns, _v1v, _v1p, _version, _config = _mods()
+    vinfo = v2version.parse_version_info(vtext, vpattern)
+    normalized = v2patterns.normalize_pattern(vpattern, "{pep440_version}")
+    return v2version.format_version(vinfo, normalized)
